@@ -6,7 +6,7 @@ set -u
 name=$1; prop=$2; src=$3
 dst=/verif/seeded/$name
 mkdir -p $dst
-cp $src/patch.diff $src/demo.rs $src/meta.json $dst/ 2>/dev/null
+[ "$src" != "$dst" ] && cp $src/patch.diff $src/demo.rs $src/meta.json $dst/ 2>/dev/null
 wt=/tmp/confirm/$name
 rm -rf $wt; mkdir -p /tmp/confirm
 git -C /repo worktree add -q --detach $wt HEAD || exit 3
